@@ -607,6 +607,37 @@ func (fr *frame) concretizeVar(v *SVar) int {
 	return r.(int)
 }
 
+// concretizeData forks over every selector variable that occurs in data
+// (a byte slice or string with symbolic parts) and returns concrete data.
+func (fr *frame) concretizeData(data value) value {
+	for hasSym(data) {
+		var v *SVar
+		var find func(x value)
+		find = func(x value) {
+			if v != nil {
+				return
+			}
+			switch x := x.(type) {
+			case *Sym:
+				v = x.vars[0]
+			case []value:
+				for _, e := range x {
+					find(e)
+				}
+			case *Term:
+				panic(pathAbort{"unsupported", "codec input depends on a bit-vector term"})
+			}
+		}
+		find(data)
+		if v == nil {
+			panic(pathAbort{"unsupported", "codec input with symbolic structure"})
+		}
+		k := fr.concretizeVar(v)
+		data = fixVarIn(data, v, k)
+	}
+	return data
+}
+
 // fixVar substitutes the single live value of v inside args.
 func (fr *frame) fixVar(args []value, v *SVar) []value {
 	ctx := fr.i.ctx
